@@ -248,3 +248,48 @@ fn get_metrics(status: Option<TransformStatus>, file: &str) -> Option<Metrics> {
     }
     None
 }
+
+// Accessors for the verification harness (the items above are private to this module);
+// compiled only with `--cfg dd_iast_verif`.
+#[cfg(dd_iast_verif)]
+pub(crate) mod verif_hooks {
+    use super::{get_metrics, Config, CsiMethod, Metrics, RewriterConfig, TransformStatus};
+
+    pub fn metrics(status: Option<TransformStatus>, file: &str) -> Option<Metrics> {
+        get_metrics(status, file)
+    }
+
+    pub fn fallback_config() -> Config {
+        RewriterConfig::default().to_config()
+    }
+
+    #[allow(clippy::type_complexity)]
+    pub fn config_from(
+        chain_source_map: Option<bool>,
+        comments: Option<bool>,
+        local_var_prefix: Option<String>,
+        csi_methods: Option<Vec<(String, Option<String>, Option<bool>, Option<bool>)>>,
+        telemetry_verbosity: Option<String>,
+        literals: Option<bool>,
+    ) -> Config {
+        RewriterConfig {
+            chain_source_map,
+            comments,
+            local_var_prefix,
+            csi_methods: csi_methods.map(|methods| {
+                methods
+                    .into_iter()
+                    .map(|(src, dst, operator, allowed_without_callee)| CsiMethod {
+                        src,
+                        dst,
+                        operator,
+                        allowed_without_callee,
+                    })
+                    .collect()
+            }),
+            telemetry_verbosity,
+            literals,
+        }
+        .to_config()
+    }
+}
